@@ -537,7 +537,10 @@ inductive CountCase (E : Engine) (cfg : Cfg) (a : Alloc) (nSeats : Nat) (total :
   | election (qv : Rat) (hq : computeQuota cfg total nSeats = some qv) (hpos : 0 < qv) (el : Seats)
       (hel : electByQuota cfg.acceptEqual qv (nSeats - sumSeats prev) prev maxS (totalsInPlay a) = .ok el)
       (hne : el ≠ []) (hout : afterElection E a el qv prev maxS ds = .ok (out, ds'))
-  | elimination (hout : afterElimination E a cfg.step ds = .ok (out, ds'))
+  | elimination
+      (hnoq : ∀ qv, computeQuota cfg total nSeats = some qv → 0 < qv ∧
+        electByQuota cfg.acceptEqual qv (nSeats - sumSeats prev) prev maxS (totalsInPlay a) = .ok [])
+      (hout : afterElimination E a cfg.step ds = .ok (out, ds'))
 
 theorem nextCount_cases {E : Engine} {cfg : Cfg} {a : Alloc} {nSeats : Nat} {total : Rat} {prev maxS : Seats}
     {ds ds' : List Draw} {out : CountOut}
@@ -553,7 +556,8 @@ theorem nextCount_cases {E : Engine} {cfg : Cfg} {a : Alloc} {nSeats : Nat} {tot
       exact .shortcut hs h
     · unfold countProper at h
       split at h
-      · exact .elimination h
+      · rename_i hq
+        exact .elimination (fun qv hqv => by rw [hq] at hqv; cases hqv) h
       · rename_i qv hq
         split at h
         · cases h
@@ -562,7 +566,12 @@ theorem nextCount_cases {E : Engine} {cfg : Cfg} {a : Alloc} {nSeats : Nat} {tot
           · cases h
           · rename_i el hel
             split at h
-            · exact .elimination h
+            · rename_i hel0
+              refine .elimination (fun qv' hqv' => ?_) h
+              rw [hq] at hqv'
+              injection hqv' with hqv'
+              subst hqv'
+              exact ⟨not_le.mp hpos, hel0 ▸ hel⟩
             · rename_i hne
               exact .election qv hq (not_le.mp hpos) el hel hne h
 
@@ -644,7 +653,7 @@ theorem count_inv {E : Engine} (hE : EngineOK E) {cfg : Cfg} {a : Alloc} (hk : K
     · rw [hm.cont_eq, he2]
       have : continuing a1 = continuing a := by rw [continuing_eq, continuing_eq, hs.keys_eq]
       rw [this]
-  | elimination hout =>
+  | elimination _ hout =>
     obtain ⟨retained, _, _, htr, he1, _⟩ := afterElimination_inv hout
     have hm := transferIf_moved hE htr
     refine ⟨?_, hm.keys hk, hm.nonneg, hm.rests, hm.keep_none, hm.ballots, hm.cont_eq⟩
